@@ -940,11 +940,29 @@ Proof.
   - discriminate.
 Qed.
 
-Lemma Inv_reopen_ok : forall s h tbls maxseq,
-  Inv s h -> recovered s = Some (tbls, maxseq) -> Inv (reopen s) h.
+(* what recovery needs of the state it starts from: only what is on disk (this is also the
+   situation after a crash, where memtables and counters are gone) *)
+Record DiskInv (s : st) (h : hist) : Prop := mkDiskInv {
+  d_sorted : StronglySorted N.lt (map fst h);
+  d_nonempty : Forall (fun p => effects (snd p) <> []) h;
+  d_wal : concat (wal_files s) = wentries h;
+  d_ssts : lost_log s = false -> Forall (Forall (key_written h)) (map s_entries (ssts s))
+}.
+
+Lemma Inv_DiskInv : forall s h, Inv s h -> DiskInv s h.
+Proof.
+  intros s h I. constructor.
+  - exact (inv_sorted s h I).
+  - exact (inv_nonempty s h I).
+  - exact (inv_wal s h I).
+  - exact (inv_ssts s h I).
+Qed.
+
+Lemma Inv_reopen_disk : forall s h tbls maxseq,
+  DiskInv s h -> recovered s = Some (tbls, maxseq) -> Inv (reopen s) h.
 Proof.
   intros s h tbls maxseq I H. rewrite (reopen_some s tbls maxseq H).
-  unfold recovered in H. rewrite concat_reopen_files, (inv_wal s h I) in H.
+  unfold recovered in H. rewrite concat_reopen_files, (d_wal s h I) in H.
   destruct (recover_tables_spec (cfg s) _ _ (w_m_hist h) [mt_empty] 0 [[]] tbls maxseq)
     as (segs' & HL & HM & HC & Hmax).
   { repeat constructor. }
@@ -953,8 +971,8 @@ Proof.
   cbn [rev concat app] in HC.
   assert (Hlast : maxseq = last (map fst h) 0).
   { rewrite Hmax, rec_max_last.
-    - apply last_wentries. exact (inv_nonempty s h I).
-    - apply wentries_sorted. exact (inv_sorted s h I).
+    - apply last_wentries. exact (d_nonempty s h I).
+    - apply wentries_sorted. exact (d_sorted s h I).
     - intros x _. lia. }
   clear Hmax H. destruct HM as (cur & older & -> & Hcur).
   destruct segs' as [|sc so]; [inversion HL|].
@@ -967,20 +985,24 @@ Proof.
       intros l l' HF. induction HF; cbn [map]; constructor; assumption.
     + exact Hsc.
     + rewrite <- HC. cbn [rev]. rewrite concat_app. cbn [concat]. rewrite app_nil_r. reflexivity.
-  - exact (inv_sorted s h I).
+  - exact (d_sorted s h I).
   - rewrite Forall_forall. intros q Hq.
-    pose proof (sorted_le_last _ q (inv_sorted s h I) Hq) as Hle. rewrite <- Hlast in Hle.
+    pose proof (sorted_le_last _ q (d_sorted s h I) Hq) as Hle. rewrite <- Hlast in Hle.
     destruct (maxseq =? 0) eqn:Z; lia.
-  - exact (inv_nonempty s h I).
-  - rewrite concat_reopen_files. exact (inv_wal s h I).
+  - exact (d_nonempty s h I).
+  - rewrite concat_reopen_files. exact (d_wal s h I).
   - exact Hlast.
   - destruct (maxseq =? 0) eqn:Z; lia.
   - exact Hcur.
   - apply incl_refl.
-  - intros Hl. pose proof (inv_ssts s h I Hl) as HS. rewrite Forall_forall in *.
+  - intros Hl. pose proof (d_ssts s h I Hl) as HS. rewrite Forall_forall in *.
     intros l Hlin. apply in_map_iff in Hlin. destruct Hlin as (t & <- & Ht).
     apply (proj1 (sst_sort_in _ _)) in Ht. apply HS. apply in_map. exact Ht.
 Qed.
+
+Lemma Inv_reopen_ok : forall s h tbls maxseq,
+  Inv s h -> recovered s = Some (tbls, maxseq) -> Inv (reopen s) h.
+Proof. intros s h tbls maxseq I H. eapply Inv_reopen_disk; [apply Inv_DiskInv; exact I|exact H]. Qed.
 
 (* ------------------------------------------------------------------------------------ *)
 (* Part E: runs                                                                            *)
